@@ -82,6 +82,9 @@ func newL1TwoBridges(period time.Duration) *world.L1 {
 
 func (c11Sys) Root() *c11State {
 	w := newL1TwoBridges(c11Period)
+	if err := w.HK.SetBridgeConfig(w.Ctx, 2, world.BridgeConfig("proposer", "challenger", c11PeriodOf(2))); err != nil {
+		panic(err)
+	}
 	return &c11State{ctx: w.Ctx, w: w}
 }
 
@@ -147,7 +150,15 @@ func c11OneEvent(evs sdk.Events, typ string, want map[string]string) *engine.Vio
 	return nil
 }
 
-func (m c11Out) final(now time.Time) bool { return !now.Before(m.T.Add(c11Period)) }
+// bridge 2 has the longest period there is (its outputs never become final; time.Add saturates)
+func c11PeriodOf(b uint64) time.Duration {
+	if b == 2 {
+		return time.Duration(math.MaxInt64)
+	}
+	return c11Period
+}
+
+func (m c11Out) final(now time.Time, b uint64) bool { return !now.Before(m.T.Add(c11PeriodOf(b))) }
 
 func (c11Sys) Step(s *c11State, l engine.Letter) (*c11State, string, *engine.Violation) {
 	ctx, _ := s.ctx.CacheContext()
@@ -197,7 +208,7 @@ func (c11Sys) Step(s *c11State, l engine.Letter) (*c11State, string, *engine.Vio
 		anyFinal := false
 		if inRange {
 			for i := d.idx; i < lg.next(); i++ {
-				if lg.Outs[i-1].final(ctx.BlockTime()) {
+				if lg.Outs[i-1].final(ctx.BlockTime(), d.b) {
 					anyFinal = true
 				}
 			}
@@ -229,7 +240,7 @@ func (c11Sys) Step(s *c11State, l engine.Letter) (*c11State, string, *engine.Vio
 		}
 		if authorised && inRange && anyFinal {
 			// partly final log: some output in the range is final while the first one may not be
-			if !lg.Outs[d.idx-1].final(ctx.BlockTime()) {
+			if !lg.Outs[d.idx-1].final(ctx.BlockTime(), d.b) {
 				return c, "rejected-final-in-middle", nil
 			}
 			return c, "rejected-final", nil
@@ -276,7 +287,7 @@ func (c11Sys) Check(s *c11State) *engine.Violation {
 					return viol("l1-times-non-decreasing", "bridge %d: idx %d time before idx %d", b, i+1, i)
 				}
 			}
-			f := want.final(now)
+			f := want.final(now, b)
 			if f && seenFinalGap {
 				return viol("final-outputs-form-a-prefix", "bridge %d: idx %d final after a non-final one", b, i+1)
 			}
@@ -287,7 +298,7 @@ func (c11Sys) Check(s *c11State) *engine.Violation {
 		// LastFinalizedOutput = the highest final index of the reference log (0 / empty if none)
 		wantLF := uint64(0)
 		for i, o := range lg.Outs {
-			if o.final(now) {
+			if o.final(now, b) {
 				wantLF = uint64(i + 1)
 			}
 		}
